@@ -432,7 +432,9 @@ impl LogReader {
 
         // A buffer consolidating all of the fragments retrieved from the log file.
         let mut data_buffer: Vec<u8> = vec![];
-
+        // True while `data_buffer` holds the leading fragments of a record whose last fragment has
+        // not been seen yet.
+        let mut in_fragmented_record = false;
         loop {
             let maybe_record = self.read_physical_record();
             if let Err(physical_read_err) = maybe_record {
@@ -444,16 +446,51 @@ impl LogReader {
                 }
             } else {
                 let record = maybe_record.unwrap();
-                data_buffer.extend(record.data);
-
                 match record.block_type {
                     BlockType::Full => {
-                        return Ok((data_buffer, false));
+                        if in_fragmented_record {
+                            // A writer died after emitting the first fragments of a record and a
+                            // later writer appended after them. The partial record was never
+                            // acknowledged so it is dropped.
+                            LogReader::log_drop(
+                                data_buffer.len() as u64,
+                                "Partial record without an end.".to_owned(),
+                            );
+                        }
+
+                        return Ok((record.data, false));
                     }
-                    BlockType::First => {}
-                    BlockType::Middle => {}
+                    BlockType::First => {
+                        if in_fragmented_record {
+                            LogReader::log_drop(
+                                data_buffer.len() as u64,
+                                "Partial record without an end.".to_owned(),
+                            );
+                        }
+
+                        data_buffer = record.data;
+                        in_fragmented_record = true;
+                    }
+                    BlockType::Middle => {
+                        if in_fragmented_record {
+                            data_buffer.extend(record.data);
+                        } else {
+                            LogReader::log_drop(
+                                record.data.len() as u64,
+                                "Missing the start of a fragmented record.".to_owned(),
+                            );
+                        }
+                    }
                     BlockType::Last => {
-                        return Ok((data_buffer, false));
+                        if in_fragmented_record {
+                            data_buffer.extend(record.data);
+                            return Ok((data_buffer, false));
+                        }
+
+                        LogReader::log_drop(
+                            record.data.len() as u64,
+                            "Missing the start of a fragmented record.".to_owned(),
+                        );
                     }
                 }
             }
